@@ -472,7 +472,14 @@ class Array:
             except StopIteration:  # nothing to append
                 return
             array = self._checkarrayforappend(firstarray)
-            array.tofile(str(self._datapath))
+            try:
+                array.tofile(str(self._datapath))
+                if self._datapath.stat().st_size != array.nbytes:
+                    raise OSError(f"could not write all data to "
+                                  f"'{self._datapath}'")
+            except Exception:
+                os.truncate(self._datapath, 0)  # array remains empty
+                raise
             self._update_len(lenincrease=array.shape[0])
         with self._open_array() as (v, fd):
             oldshape = v.shape
